@@ -70,6 +70,14 @@ func genMirrorOp(t *rapid.T) Op {
 func GenMirror(t *rapid.T) MirrorCase {
 	var c MirrorCase
 	c.Ops = []Op{{Kind: "attach", Fid: 0}}
+	if rapid.IntRange(0, 3).Draw(t, "prelude") > 0 {
+		// fids on a file, a second file and a directory, so that I/O states are reached quickly
+		c.Ops = append(c.Ops,
+			Op{Kind: "walk", Fid: 0, Newfid: 1, Names: []harn.B{harn.B("a"), harn.B("x")}},
+			Op{Kind: "walk", Fid: 0, Newfid: 2, Names: []harn.B{harn.B("f")}},
+			Op{Kind: "walk", Fid: 0, Newfid: 3, Names: []harn.B{harn.B("a")}},
+		)
+	}
 	max := 30
 	if harn.Thorough() {
 		max = 60
